@@ -123,6 +123,9 @@ pub struct IterSpec {
     /// the iterator panics when asked for item number `panic_at` (0-based)
     #[serde(default, skip_serializing_if = "Option::is_none")]
     pub panic_at: Option<u16>,
+    /// an honest but inexact size hint, like `filter` gives: (0, Some(remaining + slack))
+    #[serde(default, skip_serializing_if = "Option::is_none")]
+    pub loose: Option<u16>,
 }
 
 #[derive(Clone, Debug, PartialEq, Eq, Hash, Serialize, Deserialize)]
